@@ -275,7 +275,10 @@ class DimArray(AbstractDimArray, OpMixin, GetSetDelAttrMixin):
             axes = dim_array.axes
 
         elif values is not None:
-            values = np.array(values, copy=copy, dtype=dtype)
+            if copy:
+                values = np.array(values, dtype=dtype)
+            else:
+                values = np.asarray(values, dtype=dtype)  # copy only if needed (np.array(copy=False) raises under numpy 2)
 
         #
         # Initialize the axes
